@@ -90,6 +90,11 @@ def run_impl(c):
                 raise WrongType()
             return [q, _ticks(r, TD)]
         return vf.try_impl(f)
+    if k == "recompose":
+        def f():
+            a, b = _td(c["a"]), _td(c["b"])
+            return _ticks((a // b) * b + a % b, TD)
+        return vf.try_impl(f)
     if k == "mul_int":
         n = bool(c["n"]) if c.get("as_bool") else c["n"]
         if c.get("huge"):
@@ -208,6 +213,8 @@ def to_coq(c, r):
         return "FloorTD %s %s %s" % (z(c["a"]), z(c["b"]), vf.resc(r))
     if k == "divmod_td":
         return "DivmodTD %s %s %s" % (z(c["a"]), z(c["b"]), vf.resc(r, lambda v: "(%s, %s)" % (z(v[0]), z(v[1]))))
+    if k == "recompose":
+        return "Recompose %s %s %s" % (z(c["a"]), z(c["b"]), vf.resc(r))
     if k == "mul_int":
         if c.get("huge"):
             return "MulInt %s (%s * (10 ^ 4400 + 7)) %s %s" % (z(c["a"]), z(c["n"]), b(c["rev"]), vf.resc(r))
@@ -244,6 +251,8 @@ def sig(c, r):
     exact = None
     if c["k"] == "bin":
         exact = {"add": a + b2, "sub": a - b2, "rsub": b2 - a, "mod": (a % b2) if b2 else 0}[c["op"]]
+    elif c["k"] == "recompose":
+        exact = (a // b2) * b2 if b2 else 0
     elif c["k"] in ("mul_int",):
         exact = a * c["n"]
     elif c["k"] in ("dt_add_td",):
@@ -270,6 +279,7 @@ def _int_cases(pairs, rng):
             out.append({"k": "bin", "op": op, "a": a, "b": b})
         out.append({"k": "floor_td", "a": a, "b": b})
         out.append({"k": "divmod_td", "a": a, "b": b})
+        out.append({"k": "recompose", "a": a, "b": b})
         out.append({"k": "cmp", "dt": rng.random() < 0.5, "a": a, "b": b})
         out.append({"k": "cmp", "dt": rng.random() < 0.5, "a": a, "b": a})
         out.append({"k": "dt_add_td", "t": a, "d": b, "rev": rng.random() < 0.3})
@@ -397,7 +407,8 @@ def gen_cases(rng, tier):
     # implementation) - for the caller an out-of-range product like any other; zero times it is zero
     # a zero divisor raises whatever the dividend is, zero included
     huge += [{"k": "floor_int", "a": a, "n": 0} for a in (0, 1, -1, T64)] + [{"k": "floor_td", "a": a, "b": 0} for a in (0, 5)] + \
-            [{"k": "bin", "op": "mod", "a": a, "b": 0} for a in (0, -7)] + [{"k": "divmod_td", "a": a, "b": 0} for a in (0, 3)]
+            [{"k": "bin", "op": "mod", "a": a, "b": 0} for a in (0, -7)] + [{"k": "divmod_td", "a": a, "b": 0} for a in (0, 3)] + [
+                {"k": "recompose", "a": a, "b": b} for a, b in ((-2**127, 3), (2**127 - 1, -3), (-2**127, -1), (-2**127 + 3, 3), (2**127 - 1, 2**127 - 1), (7, 0), (-7, 2))]
     huge += [{"k": "mul_rat", "ty": "Decimal", "a": a, "x": x, "rev": rev}
              for a, x, rev in ((10 * T64, "9e999999", False), (-3 * T64, "9e999999", True), (MAX128, "-9e999999", False),
                                (0, "9e999999", False), (25 * T64, "-9.5e999999", True))]
